@@ -223,8 +223,8 @@ Commit == /\ w.par # NoVer /\ NextMinor(w.par.maj + 1) = 0
 \* a further block at a height that already has one: same major, next minor
 CommitFork == /\ w.par # NoVer /\ NextMinor(w.par.maj + 1) > 0
               /\ DoCommit(w.par, w.cur, w.touched, V(w.par.maj + 1, NextMinor(w.par.maj + 1)))
-\* Open ; Update* ; Touch* ; Commit|CommitFork in one step (used by the exhaustive configurations: the intermediate
-\* states of a working copy do not interact with the store)
+\* Open ; Update* ; Touch* ; Commit|CommitFork in one step (used by the exhaustive configurations MC_NodeStore: the
+\* intermediate states of a working copy do not interact with the store)
 Block(p, cur, touched) ==
   /\ CanOpen(p)
   /\ DoCommit(p, cur, touched, V(p.maj + 1, NextMinor(p.maj + 1)))
@@ -288,17 +288,6 @@ TouchCount == Cardinality(UNION {{<<n, k>> : k \in w.touched[n]} : n \in Names})
 ForkCount == Cardinality({b \in vers : b.min > 0})
 ValOf(b) == b.maj * (MaxMin + 1) + b.min + 2     \* a fresh value per block (1 = genesis value)
 MayBuildOn(p) == NextMinor(p.maj + 1) = 0 \/ (NextMinor(p.maj + 1) <= MaxMin /\ ForkCount < MaxForks)
-\* one block = a change function over (trie, key): keep / set a fresh value / delete / touch
-Pos == Names \X Keys
-Changes == UNION {{[x \in Pos |-> IF x \in S THEN g[x] ELSE "keep"] : g \in [S -> {"set", "del", "touch"}]}
-                  : S \in {T \in SUBSET Pos : Cardinality(T) <= MaxTouch}}
-BlockStep(p, f) ==
-  \E b \in {V(p.maj + 1, NextMinor(p.maj + 1))} : \E pc \in {Logical(p)} :
-  \E cur \in {[n \in Names |-> [k \in Keys |-> IF f[<<n, k>>] = "set" THEN ValOf(b)
-                                                  ELSE IF f[<<n, k>>] = "del" THEN 0 ELSE pc[n][k]]]} :
-  \E touched \in {[n \in Names |-> {k \in Keys : f[<<n, k>>] # "keep"}]} :
-     /\ \A n \in Names, k \in Keys : f[<<n, k>>] \in {"del", "touch"} => pc[n][k] # 0
-     /\ Block(p, cur, touched)
 NextFine ==
   \/ \E p \in vers : MayBuildOn(p) /\ Open(p)
   \/ \E n \in Names, k \in Keys :
@@ -311,11 +300,8 @@ NextStore ==
   \/ \E t \in vers : Checkpoint(t, t.maj + 1)
   \/ DeleteHist
   \/ Reopen
-Next ==
-  \/ \E p \in vers : MayBuildOn(p) /\ \E f \in Changes : BlockStep(p, f)
-  \/ NextStore
+Next == NextFine \/ NextStore
 Spec == Init /\ [][Next]_vars
-SpecFine == Init /\ [][NextFine \/ NextStore]_vars
 
 \* ---------------------------------------------------------------- properties
 RetainedReadable ==
